@@ -21,6 +21,12 @@ V_rfa_rel(e) ==
         LET r1 == e.runs[1]  r2 == e.runs[2]
         IN Fail(~SameLen(r1, r2) \/ \E i \in 1..Len(r1.outy) : ~AffOK(r2.outy[i], r1.outy[i], e.maps[1], e.maps[2]), "C07.commute_values") \cup
            Fail(~SameLen(r1, r2) \/ \E i \in 1..Len(r1.outx) : ~AffOK(r2.outx[i], r1.outx[i], e.maps[3], e.maps[4]), "C07.commute_time")
+    ELSE IF e.rel = "affine_exact" THEN
+        \* exactly representable maps of extreme magnitude (power-of-two scales, large integer shifts): the harness maps the
+        \* second run back into the units of the first (an exact floating-point operation for these maps) and records it
+        LET r1 == e.runs[1]  r2 == e.runs[2]
+        IN Fail(~SameLen(r1, r2) \/ ~NearSeqFF(r1.outy, r2.outy, Tol), "C07.commute_values") \cup
+           Fail(~SameLen(r1, r2) \/ ~NearSeqFF(r1.outx, r2.outx, Tol), "C07.commute_time")
     ELSE IF e.rel = "local" THEN
         LET r1 == e.runs[1]  r2 == e.runs[2]
         IN Fail(~SameLen(r1, r2) \/ \E i \in 1..Len(r1.outy) :
